@@ -97,6 +97,26 @@ fn case(rng: &mut Rng, c: &mut Collector) {
             c.violation("C17:api:better-suggestion-replaced", format!("`{name}`: suggestion `{x}` was replaced by the worse `{y}`"), json!({"name": name, "first": a1, "added": a2}));
         }
     }
+    // 2b. a chain of flatten levels: siblings are added three and four times over; after every step the
+    // suggestion is the best of everything offered so far (an earlier, better one is never displaced)
+    {
+        let mut e = e2.clone();
+        let mut all = both.clone();
+        let mut prev = s2.clone();
+        for step in 0..2 {
+            let more = mk(rng);
+            e = e.add_sibling_alts_for_unknown_field(&more);
+            all.extend(more.iter().cloned());
+            let now = suggestion(&e.to_string());
+            check(c, if step == 0 { "add_sibling_alts x2" } else { "add_sibling_alts x3" }, &name, &all, now.clone());
+            if let (Some(x), Some(y)) = (&prev, &now) {
+                if strsim::jaro_winkler(&name, y) + 1e-12 < strsim::jaro_winkler(&name, x) {
+                    c.violation("C17:api:better-suggestion-replaced", format!("`{name}`: suggestion `{x}` was replaced by the worse `{y}` at the {}th addition", step + 2), json!({"name": name, "offered": all}));
+                }
+            }
+            prev = now;
+        }
+    }
     // 3. after a location was added the error has left its origin: no change
     let located = Error::unknown_field_with_alts(&name, &a1).at("somewhere");
     let before = located.to_string();
